@@ -79,11 +79,18 @@ def replay_chunk(args):
         prog, inc = beh["prog"], beh["inc"]
         # consecutive runs in one process use different strip patterns (anything cached between runs shows)
         agg.PREFIX = ["_p_", "_q_", "arg_"][n % 3]
-        src, meta = agg.concretize(prog, cmds, seed * 1000003 + n)
-        settings = agg.make_settings(inc, pats)
-        status, text, _, err = agg.run_real(src, settings)
+        via_main = pid == "C03" and n % 5 == 0
+        if via_main:
+            # every fifth program takes the command-line route with the settings in a -s file and a trigger string of
+            # two words; doccomments without the trigger carry a line that shares its first word
+            src, meta = agg.concretize(prog, cmds, seed * 1000003 + n, trigger=agg.TRIGGER_2W, decoy=":param zz: not the trigger")
+            status, text, _, err = agg.run_via_main(src, inc, pats, agg.TRIGGER_2W)
+        else:
+            src, meta = agg.concretize(prog, cmds, seed * 1000003 + n)
+            settings = agg.make_settings(inc, pats)
+            status, text, _, err = agg.run_real(src, settings)
         case = {"prog": [{"k": cmds[p["ci"] - 1]["k"], "d": p["d"], "a": cmds[p["ci"] - 1]["ord"]} for p in prog],
-                "inc": inc, "source": src, "features": features(prog, cmds, inc)}
+                "inc": inc, "source": src, "features": features(prog, cmds, inc), "route": "cminx.main -s" if via_main else "Documenter"}
         if status != "ok":
             out.append((n, case, "page", status + " " + text, "real pipeline raised on an in-domain program"))
             continue
@@ -152,6 +159,15 @@ def replay_c08_chunk(args):
         case["obs_equals_impl_model"] = (obs == imp)
         d1, d0 = agg.doc_part(v1, meta), agg.doc_part(v0, meta)
         shown = [x for x in agg.undocumented_shown(v1, meta) if not inc[x[0]] and x[0] == x[1]]
+        if beh["dimpl"]:
+            # an implementing definition carries a doccomment of its own: the specification states no ideal for such
+            # programs, only the pair comparison applies - whatever stems from a doccomment renders as under defaults
+            case["features"]["documented_implementation"] = True
+            if d1 != d0 and not case["features"]["doc_class_flag_off"]:
+                out.append((n, case, d0, d1, "rendering of a doccomment-stemming entry differs from its rendering under default settings"))
+            else:
+                out.append((n, None, None, None, None))
+            continue
         if obs != ideal:
             out.append((n, case, ideal, obs, "doccomment-stemming entries differ from the ideal under these flags"))
         elif d1 != d0:
